@@ -102,6 +102,12 @@ func (s *Solver) send(txt string) {
 	}
 }
 
+func (s *Solver) logAnswer(a string) {
+	if s.log != nil {
+		io.WriteString(s.log, "; answer: "+a+"\n")
+	}
+}
+
 func (s *Solver) Push() {
 	s.send("(push 1)\n")
 	s.level++
@@ -244,13 +250,16 @@ func (s *Solver) Check() SatResult {
 		switch {
 		case line == "sat":
 			s.Time += time.Since(t0)
+			s.logAnswer("sat")
 			return Sat
 		case line == "unsat":
 			s.Time += time.Since(t0)
+			s.logAnswer("unsat")
 			return Unsat
 		case line == "unknown" || line == "timeout":
 			s.Time += time.Since(t0)
 			s.Unknown++
+			s.logAnswer("unknown")
 			return Unknown
 		case strings.HasPrefix(line, "(error"):
 			s.Errors = append(s.Errors, line)
